@@ -1,5 +1,6 @@
 import PyribsModel.Archive
 import PyribsModel.Sliding
+import PyribsModel.Proximity
 /-!
 # Validated — the validate-then-mutate layer of the archives (C11)
 
@@ -20,6 +21,9 @@ inductive ShapeFault
   | wrongLength    -- batch dimension differs from the solution batch
   | missingField   -- an extra field of the archive was not passed
   | unknownField   -- a field the archive does not have was passed
+  | unconvertible  -- a value the field's dtype cannot hold (text in a numeric field; D28 / D33)
+  | objectSequence -- a sequence where an object field of shape () expects one object (D33)
+  | notScalar      -- `add_single(objective=[x])`: a sequence where a scalar is expected (D34)
 deriving DecidableEq, Repr
 
 structure RawRow where
@@ -117,6 +121,64 @@ def VSliding.step (nd : Nat) (s : Sliding) : Call → Sliding × Out
     | none => (s, .rejected)
     | some qs => (s, .indices (qs.map (sbIdx s.geom)))
   | .clear => (s.clear, .done)
+
+/-! ### any archive behind the same validation (ProximityArchive included)
+
+The validation layer is the same function for every archive type (`validate_batch` /
+`validate_single`); what sits behind it differs.  `Behind σ` is an arbitrary mutable object with
+the five entry points; `Behind.step` is the validate-then-mutate composition. -/
+
+structure Behind (σ : Type) where
+  nd    : Nat
+  addB  : σ → List Cand → σ × Out
+  add1  : σ → Cand → σ × Out
+  retr  : σ → List (List Rat) → Out
+  idx   : σ → List (List Rat) → Out
+  clr   : σ → σ
+
+def Behind.step {σ : Type} (B : Behind σ) (s : σ) : Call → σ × Out
+  | .add b =>
+    match validate B.nd b with
+    | none => (s, .rejected)
+    | some cs => B.addB s cs
+  | .addSingle b =>
+    match validate B.nd b with
+    | some [c] => B.add1 s c
+    | _ => (s, .rejected)
+  | .retrieve b =>
+    match validateQueries B.nd b with
+    | none => (s, .rejected)
+    | some qs => (s, B.retr s qs)
+  | .indexOf b =>
+    match validateQueries B.nd b with
+    | none => (s, .rejected)
+    | some qs => (s, B.idx s qs)
+  | .clear => (B.clr s, .done)
+
+/-- the entry points themselves reject only without changing anything (e.g. a hint the model
+refuses, or the documented RuntimeError of an empty ProximityArchive) -/
+def Behind.Atomic {σ : Type} (B : Behind σ) : Prop :=
+  (∀ s cs, (B.addB s cs).2.isErr = true → (B.addB s cs).1 = s) ∧
+  (∀ s c, (B.add1 s c).2.isErr = true → (B.add1 s c).1 = s)
+
+/-- `ProximityArchive` behind the validation: `hint` supplies the implementation's angelic
+choices (admission inside the square-root bracket, nearest entry among ties) for a validated
+batch; a hint the model refuses leaves the archive as it was. -/
+def proxBehind (nd : Nat) (hint : Prox → List Cand → List Prox.Hinted) : Behind Prox :=
+  { nd := nd
+    addB := fun p cs =>
+      match p.add (hint p cs) with
+      | .ok (p', fb) => (p', .feedback (fb.status.zip fb.novLo))
+      | .error _ => (p, .rejected)
+    add1 := fun p c =>
+      match p.add (hint p [c]) with
+      | .ok (p', fb) => (p', .feedback (fb.status.zip fb.novLo))
+      | .error _ => (p, .rejected)
+    retr := fun p qs => if p.len = 0 then .rejected else
+      .elites (p.arch.retrieve (qs.map (fun q => ((p.nearestSet q).head?).getD 0)))
+    idx := fun p qs => if p.len = 0 then .rejected else
+      .indices (qs.map (fun q => ((p.nearestSet q).head?).getD 0))
+    clr := Prox.clear }
 
 /-! ### generic histories -/
 
